@@ -398,44 +398,46 @@ impl<const N: usize> Exec<N> {
         let before: BTreeSet<usize> = inst.last_obs.keys.iter().copied().collect();
         let after: BTreeSet<usize> = obs.keys.iter().copied().collect();
         let removed: Vec<usize> = before.difference(&after).copied().collect();
-        // 3. C01, phrased over the call history (model-free: only history facts are used)
+        // 3. C01, phrased over the call history (model-free: only history facts are used).
+        // A failing clause is held back until the alive set has been compared with the model:
+        // the same event usually violates C02's "until then every member stays present" as well.
+        let mut c01: Option<Failure> = None;
         if !removed.is_empty() {
             let m = &inst.m;
+            let mut raise = |clause: &'static str, msg: String| {
+                if c01.is_none() {
+                    c01 = fail::<()>(clause, clauses::C01, msg).err();
+                }
+            };
             match op {
                 Op::Data(v) if m.present.get(v).is_some_and(|x| x.unread) => {
                     let vinc = m.present[v].inc;
                     for r in &removed {
                         let Some(mr) = m.present.get(r) else { continue };
                         if !m.linked(vinc, mr.inc) {
-                            return fail(
+                            raise(
                                 "removal.not-linked-by-binds",
-                                clauses::C01,
                                 format!("data(ν{v}) removed ν{r}, never linked to ν{v} by any bind"),
                             );
                         }
                         if r != v && mr.unread {
-                            return fail(
+                            raise(
                                 "removal.holds-unread-datum",
-                                clauses::C01,
                                 format!("data(ν{v}) removed ν{r} which holds a put-but-unread datum"),
                             );
                         }
                         if !m.was_bound(mr.inc) {
-                            return fail(
+                            raise(
                                 "removal.never-bound",
-                                clauses::C01,
                                 format!("data(ν{v}) removed ν{r} which was never an endpoint of a bind"),
                             );
                         }
                     }
                 }
-                _ => {
-                    return fail(
-                        "removal.by-non-reading-call",
-                        clauses::C01,
-                        format!("{op:?} removed {removed:?} (not a first read of a datum)"),
-                    );
-                }
+                _ => raise(
+                    "removal.by-non-reading-call",
+                    format!("{op:?} removed {removed:?} (not a first read of a datum)"),
+                ),
             }
         }
         // 4. the model takes the step
@@ -465,14 +467,14 @@ impl<const N: usize> Exec<N> {
                         if !vo.kids.is_empty() {
                             return fail(
                                 "add.not-blank.edges",
-                                clauses::C04,
+                                &["C04", "C03"],
                                 format!("add(ν{v}) on an absent id came back with edges {:?}", vo.kids),
                             );
                         }
                         if vo.vprint.contains('Δ') {
                             return fail(
                                 "add.not-blank.data",
-                                clauses::C04,
+                                &["C04", "C03"],
                                 format!("add(ν{v}) on an absent id came back with data: {}", vo.vprint),
                             );
                         }
@@ -533,7 +535,7 @@ impl<const N: usize> Exec<N> {
                 m.put(*v, d);
             }
             Op::Data(v) => {
-                let out = m.data(*v);
+                let out = if self.view.cfg.adopt_alive { m.data_adopt(*v, &removed) } else { m.data(*v) };
                 if let OpRet::Data(val, rem) = &mut ret {
                     *rem = removed.clone();
                     if *val != out.value {
@@ -602,17 +604,30 @@ impl<const N: usize> Exec<N> {
         }
         let mk = inst.m.keys();
         if mk != obs.keys {
+            if let Some(mut f) = c01 {
+                // safety and exactness fail in the same call
+                f.message = format!("{}; keys()={:?}, reference model={mk:?}", f.message, obs.keys);
+                f.owners.extend(clauses::ALIVE);
+                return Err(f);
+            }
             return fail(
                 "alive-set.differs-from-model",
                 clauses::ALIVE,
                 format!("after {op:?}: keys()={:?}, reference model={mk:?}", obs.keys),
             );
         }
+        if let Some(f) = c01 {
+            return Err(f);
+        }
         check_edges(&obs, &inst.m, &probes)?;
         inst.last_obs = obs;
         inst.version += 1;
         inst.age += 1;
-        self.refresh_hints(i);
+        // the hook-derived hints (allocator position, latent inconsistency, state sample) are
+        // refreshed after allocator moves, every 4th operation, and on demand before gating
+        if matches!(op, Op::NextId) || inst.age % 4 == 0 {
+            self.refresh_hints(i);
+        }
         Ok(ret)
     }
 
